@@ -37,7 +37,24 @@ import (
 	"strings"
 )
 
-func init() { tableGens = append(tableGens, genAccessTable) }
+func init() { tableGens = append(tableGens, genAccessTableSafe) }
+
+const accessRowDecl = "structure AccessRow where\n  fn : String\n  cls : Nat\n  write : Bool\n  atomic : Bool\n  locks : List Nat\n  rlocks : List Nat\n  prepub : Bool\n  deprecated : Bool\n  inScope : Bool\n  thread : Nat\n\n"
+
+// genAccessTableSafe: a failure of the analysis must not take the whole extractor down; it becomes an
+// explicit unknown row (which fails the obligation C14_no_unknown) next to an empty table.
+func genAccessTableSafe(p *pkgInfo) (out string) {
+	defer func() {
+		if r := recover(); r != nil {
+			out = accessRowDecl +
+				"def accessClassNames : List String := []\ndef accessMutexNames : List String := []\ndef accessThreadNames : List String := [\"multi\"]\n" +
+				"def accessByClass : List (List AccessRow) := []\ndef accessTable : List AccessRow := accessByClass.flatten\n" +
+				"def accessUnknown : List String := " + leanStrList([]string{fmt.Sprintf("access table analysis failed: %v", r)}) + "\n" +
+				"def accessAssumed : List String := []\ndef accessUserCallbacks : List String := []\n"
+		}
+	}()
+	return genAccessTable(p)
+}
 
 type lockEff struct {
 	heldX, heldS map[string]bool // acquired locally (exclusive / shared)
@@ -2266,7 +2283,7 @@ func genAccessTable(p *pkgInfo) string {
 	}
 	var sb strings.Builder
 	sb.WriteString("/-- One access of a function of package kcp to a shared location class (C14; produced by extract/tables_access.go). -/\n")
-	sb.WriteString("structure AccessRow where\n  fn : String\n  cls : Nat\n  write : Bool\n  atomic : Bool\n  locks : List Nat\n  rlocks : List Nat\n  prepub : Bool\n  deprecated : Bool\n  inScope : Bool\n  thread : Nat\n\n")
+	sb.WriteString(accessRowDecl)
 	sb.WriteString("def accessClassNames : List String := " + leanStrList(classes) + "\n")
 	sb.WriteString("def accessMutexNames : List String := " + leanStrList(mutexes) + "\n")
 	sb.WriteString("def accessThreadNames : List String := " + leanStrList(threads) + "\n\n")
